@@ -28,12 +28,12 @@ Example C20_ex :
   outs = [Accepted None; Rejected EValue; Accepted (Some 0%nat)] /\ i_copy (item_at st 0) = 0 /\ length (b_items st) = 1%nat.
 Proof. vm_compute. repeat split. Qed.
 
-(* KNOWN FINDING (D22), witnessed in the model: same_content deliberately leaves the REGISTRIES out — a rejected first
-   add_* call for a (type, set name) leaves its empty set registered, and the position of that set decides later which
-   origin is the defining one. With the rejected add_origin (non-str name) the zone added last gets origin reference 7
-   (origin B, whose unnamed set now comes first); without it, the reference of origin A. So the clause "origin
-   references of objects added later are as if the call had never been made" is refuted for this history. *)
-Example C20_refuted_set_position :
+(* D22 (repaired in /repo by "fix: sets and set types left without items by a rejected add_* call take their position with
+   their first item"): a rejected FIRST
+   add_* call for a (type, set name) used to leave its empty set registered, and the position of that set decided later
+   which origin is the defining one. Now a set without items is forgotten at the next lookup: with the rejected add_origin
+   (non-str name) the zone added last gets the same origin reference as without it. *)
+Example C20_set_position_repaired :
   let lf := OAddLF (RStr [72] HNone) (RInt 1) in
   let rejected := OAddOrigin 0 (RInt 3) None RNone [] in
   let a := OAddOrigin 0 (RStr [65] HNone) (Some [83]) RNone [] in
@@ -43,7 +43,8 @@ Example C20_refuted_set_position :
   let '(_, st2, outs2) := run_ops p_init b_init [lf; a; b; z] in
   outs1 = [Accepted None; Rejected EType; Accepted (Some 0%nat); Accepted (Some 1%nat); Accepted (Some 2%nat)]
   /\ outs2 = [Accepted None; Accepted (Some 0%nat); Accepted (Some 1%nat); Accepted (Some 2%nat)]
-  /\ i_origin (item_at st1 2) = Some 7 /\ i_origin (item_at st2 2) <> Some 7.
+  /\ i_origin (item_at st1 2) = i_origin (item_at st2 2) /\ i_origin (item_at st2 2) <> Some 7
+  /\ map (fun f => map fst (l_reg f)) (b_lfs st1) = map (fun f => map fst (l_reg f)) (b_lfs st2).
 Proof. vm_compute. repeat split. discriminate. Qed.
 
 Print Assumptions C20_reject.
